@@ -143,6 +143,56 @@ def _py_reads(fn: ast.AST, var: str) -> tuple[set[str], set[str]]:
     return opt, req
 
 
+def _saver_dicts(ctx: Ctx, save: ast.FunctionDef) -> tuple[ast.Dict, dict[str, ast.Dict]]:
+    """The metadata dict display is whatever reaches json.dumps in the saver; its "timer"/"interrupts"/"kb_metrics" entries lead to
+    the sub-dict displays.  Identified by data flow, not by the names of the locals."""
+    d = py_defs(save)
+
+    def as_dict(e: ast.AST | None, depth: int = 0) -> ast.Dict | None:
+        if isinstance(e, ast.Dict):
+            return e
+        if isinstance(e, ast.Name) and depth < 3:
+            ds = [v for v in d.get(e.id, []) if isinstance(v, ast.AST)]
+            for v in ds:
+                r = as_dict(v, depth + 1)
+                if r is not None:
+                    return r
+        return None
+    metas = [as_dict(c.args[0]) for c in ast.walk(save) if isinstance(c, ast.Call) and isinstance(c.func, ast.Attribute) and c.func.attr == "dumps" and c.args]
+    metas = [m for m in metas if m is not None]
+    ctx.need(len(metas) == 1, "save_snapshot: the dict display handed to json.dumps was not found")
+    meta = metas[0]
+    subs = {}
+    for k, v in zip(meta.keys, meta.values):
+        if isinstance(k, ast.Constant) and k.value in ("timer", "interrupts", "kb_metrics"):
+            sd = as_dict(v)
+            ctx.need(sd is not None, f"save_snapshot: dict display for metadata[{k.value!r}] not found")
+            subs[k.value] = sd
+    ctx.need(set(subs) == {"timer", "interrupts", "kb_metrics"}, f"save_snapshot: sub-dicts found only for {sorted(subs)}")
+    return meta, subs
+
+
+def _loader_vars(ctx: Ctx, load: ast.FunctionDef) -> dict[str, str]:
+    """{'metadata': <local bound from json.loads>, 'timer'|'interrupts'|'kb_metrics': <local bound from metadata[...]/.get(...)>}"""
+    out: dict[str, str] = {}
+    for a in ast.walk(load):
+        if isinstance(a, ast.Assign) and len(a.targets) == 1 and isinstance(a.targets[0], ast.Name) and any(isinstance(c, ast.Call) and isinstance(c.func, ast.Attribute) and c.func.attr == "loads" for c in ast.walk(a.value)):
+            out["metadata"] = a.targets[0].id
+    ctx.need("metadata" in out, "load_snapshot: the local bound from json.loads was not found")
+    m = out["metadata"]
+    for a in ast.walk(load):
+        if isinstance(a, ast.Assign) and len(a.targets) == 1 and isinstance(a.targets[0], ast.Name):
+            for c in ast.walk(a.value):
+                key = None
+                if isinstance(c, ast.Call) and isinstance(c.func, ast.Attribute) and c.func.attr == "get" and unparse(c.func.value) == m and c.args and isinstance(c.args[0], ast.Constant):
+                    key = c.args[0].value
+                elif isinstance(c, ast.Subscript) and unparse(c.value) == m and isinstance(c.slice, ast.Constant):
+                    key = c.slice.value
+                if key in ("timer", "interrupts", "kb_metrics"):
+                    out.setdefault(key, a.targets[0].id)
+    return out
+
+
 def _rs_struct_fields(rs: RustProgram, suffix: str, name: str) -> tuple[set[str], set[str], set[str]]:
     """(all serialized fields, required-on-load fields, skipped-when-none fields)"""
     st = rs.struct(suffix, name)
@@ -166,14 +216,10 @@ def keys(ctx: Ctx, py: PyProgram, rs: RustProgram) -> None:
     save = py.func(EMU, "PCE500Emulator.save_snapshot")
     load = py.func(EMU, "PCE500Emulator.load_snapshot")
     d = py_defs(save)
-    meta = [v for v in d.get("metadata", []) if isinstance(v, ast.Dict)]
-    ctx.need(len(meta) == 1, "save_snapshot: metadata dict display not found")
-    py_written = _py_dict_keys(meta[0])
-    sub_written = {}
-    for key, var in (("timer", "timer_info"), ("interrupts", "interrupts"), ("kb_metrics", "kb_metrics")):
-        vs = [v for v in d.get(var, []) if isinstance(v, ast.Dict)]
-        ctx.need(len(vs) == 1, f"save_snapshot: {var} dict display not found")
-        sub_written[key] = _py_dict_keys(vs[0])
+    meta0, subs0 = _saver_dicts(ctx, save)
+    py_written = _py_dict_keys(meta0)
+    sub_written = {key: _py_dict_keys(sd) for key, sd in subs0.items()}
+    lv = _loader_vars(ctx, load)
     # keyboard: the emulator's `self.keyboard` is the handler class; its snapshot nests the matrix state under "matrix"
     init = py.func(EMU, "PCE500Emulator.__init__")
     kb_cls = None
@@ -194,14 +240,14 @@ def keys(ctx: Ctx, py: PyProgram, rs: RustProgram) -> None:
     matrix_written = _py_dict_keys(rets[0])
     sub_written["keyboard"] = matrix_written if "matrix" not in handler_written else handler_written
     # python loader requirements
-    opt, req = _py_reads(load, "metadata")
+    opt, req = _py_reads(load, lv["metadata"])
     n = 0
     for k in sorted(opt | req):
         n += 1
         if k not in py_written:
             ctx.violation("C16.1/py-load<-py-save", key_of(EMU, "load_snapshot", f"metadata[{k!r}]"), f"load_snapshot reads metadata key {k!r} that save_snapshot never writes", f"{EMU}:{load.lineno}")
     for key, var in (("timer", "timer_info"), ("interrupts", "interrupts"), ("kb_metrics", "kb_metrics")):
-        o, r = _py_reads(load, var)
+        o, r = _py_reads(load, lv[key]) if key in lv else (set(), set())
         for k in sorted(o | r):
             n += 1
             if k not in sub_written[key]:
@@ -271,7 +317,7 @@ def keys(ctx: Ctx, py: PyProgram, rs: RustProgram) -> None:
             ctx.violation("C16.1/py-load<-rs-save", key_of(EMU, "load_snapshot", f"metadata[{k!r}]"), f"Rust saver does not write {k!r}", rel)
     # semantic keys the python loader uses to rebuild state must exist in the Rust structs (else silently defaulted)
     for key, var, fields in (("timer", "timer_info", t_all), ("interrupts", "interrupts", i_all)):
-        o, r = _py_reads(load, var)
+        o, r = _py_reads(load, lv[key]) if key in lv else (set(), set())
         for k in sorted(o | r):
             n += 1
             if k not in fields:
@@ -287,8 +333,8 @@ def keys(ctx: Ctx, py: PyProgram, rs: RustProgram) -> None:
             ctx.violation("C16.1/py-load<-rs-save", key_of(KM_PY, "KeyboardMatrix.load_state", f"state[{k!r}]<-rust"), f"Python keyboard restores {k!r} but Rust KeyboardSnapshot has no such field", KM_PY)
     ctx.instance("C16.1/py-load<-rs-save", "keys the Python loader uses exist in what the Rust saver serialises", n, 30)
     # bundle members
-    pw = {c.args[0].value for c in ast.walk(save) if isinstance(c, ast.Call) and attr_chain(c.func) == "zf.writestr" and isinstance(c.args[0], ast.Constant)}
-    pr = {c.args[0].value for c in ast.walk(load) if isinstance(c, ast.Call) and attr_chain(c.func) == "zf.read" and isinstance(c.args[0], ast.Constant)}
+    pw = {c.args[0].value for c in ast.walk(save) if isinstance(c, ast.Call) and isinstance(c.func, ast.Attribute) and c.func.attr == "writestr" and c.args and isinstance(c.args[0], ast.Constant)}
+    pr = {c.args[0].value for c in ast.walk(load) if isinstance(c, ast.Call) and isinstance(c.func, ast.Attribute) and c.func.attr == "read" and c.args and isinstance(c.args[0], ast.Constant) and isinstance(c.args[0].value, str)}
     rsave = rs.fn(SNAP_RS, "save_snapshot")
     rload = rs.fn(SNAP_RS, "load_snapshot")
     rw = {c["args"][0]["v"] for c in walk(rsave.body) if c.get("k") == "mcall" and c["m"] == "start_file" and c["args"][0].get("k") == "lit"}
@@ -312,7 +358,7 @@ def temp_key_format(ctx: Ctx, py: PyProgram, rs: RustProgram) -> None:
     n = 0
     # Python writer: {str(k): int(v) for k, v in cpu_snapshot.temps.items()}  with temps keyed by int index
     save = py.func(EMU, "PCE500Emulator.save_snapshot")
-    meta = [v for v in py_defs(save).get("metadata", []) if isinstance(v, ast.Dict)][0]
+    meta, _subs = _saver_dicts(ctx, save)
     tv = None
     for k, v in zip(meta.keys, meta.values):
         if isinstance(k, ast.Constant) and k.value == "temps":
@@ -320,11 +366,14 @@ def temp_key_format(ctx: Ctx, py: PyProgram, rs: RustProgram) -> None:
     ctx.need(isinstance(tv, ast.DictComp), "save_snapshot: temps dict comprehension not found")
     py_w = "TEMP<n>" if "TEMP" in unparse(tv.key) else ("<n>" if unparse(tv.key) in ("str(k)", "str(int(k))") else "?")
     fr = py.func(STEPPER, "CPURegistersSnapshot.from_registers")
-    idx_keys = any(isinstance(s, ast.Assign) and unparse(s.targets[0]) == "temps[index]" for s in ast.walk(fr))
+    tnames = {unparse(k.value) for c in ast.walk(fr) if isinstance(c, ast.Call) for k in c.keywords if k.arg == "temps" and isinstance(k.value, ast.Name)}
+    idx_keys = any(isinstance(lp, ast.For) and isinstance(lp.target, ast.Name) and isinstance(lp.iter, ast.Call) and unparse(lp.iter.func) == "range"
+                   and any(isinstance(s_, ast.Assign) and isinstance(s_.targets[0], ast.Subscript) and unparse(s_.targets[0].value) in tnames and unparse(s_.targets[0].slice) == lp.target.id for s_ in ast.walk(lp))
+                   for lp in ast.walk(fr))
     ctx.need(idx_keys, "from_registers: temps[index] not found")
     # Python reader
     load = py.func(EMU, "PCE500Emulator.load_snapshot")
-    tr = [v for v in py_defs(load).get("temps", []) if isinstance(v, ast.DictComp)]
+    tr = [v for v in ast.walk(load) if isinstance(v, ast.DictComp) and any(isinstance(c, ast.Constant) and c.value == "temps" for c in ast.walk(v))]
     ctx.need(len(tr) == 1, "load_snapshot: temps comprehension not found")
     ktxt = unparse(tr[0].key)
     py_r = {"<n>"} if ktxt == "int(key)" else set()
@@ -530,9 +579,23 @@ def save_completeness(ctx: Ctx, py: PyProgram) -> None:
     for a in _ast.walk(fn):
         if isinstance(a, _ast.Assign) and len(a.targets) == 1 and isinstance(a.targets[0], _ast.Name):
             defs.setdefault(a.targets[0].id, []).append(a.value)
-    single = {k: v[0] for k, v in defs.items() if len(v) == 1 and k not in ("start", "end", "blob_len")}
+    # roles, identified by definition: the image under construction, the overlay being copied, its window bounds, the image length
+    blob_v = next((k for k, vs in defs.items() if any(isinstance(v, _ast.Call) and unparse(v.func) == "bytearray" and "external_memory" in unparse(v) for v in vs)), None)
+    loops_ = [l for l in _ast.walk(fn) if isinstance(l, _ast.For) and isinstance(l.target, _ast.Name) and "overlay" in unparse(l.iter).lower()]
+    if blob_v is None or len(loops_) != 1:
+        raise AnalysisError(f"{q}: image variable / overlay loop not identified")
+    ov_v = loops_[0].target.id
+
+    def _role(attr: str) -> str | None:
+        return next((k for k, vs in defs.items() if len(vs) == 1 and any(isinstance(x, _ast.Attribute) and x.attr == attr and unparse(x.value) == ov_v for x in _ast.walk(vs[0]))
+                     and not any(isinstance(x, _ast.Call) for x in _ast.walk(vs[0]))), None)
+    start_v, end_v = _role("start"), _role("end")
+    len_v = next((k for k, vs in defs.items() if len(vs) == 1 and unparse(vs[0]) == f"len({blob_v})"), None)
+    if not (start_v and end_v and len_v):
+        raise AnalysisError(f"{q}: window bounds / image length locals not identified ({start_v}, {end_v}, {len_v})")
+    single = {k: v[0] for k, v in defs.items() if len(v) == 1 and k not in (start_v, end_v, len_v)}
     copies = [a for a in _ast.walk(fn) if isinstance(a, _ast.Assign) and isinstance(a.targets[0], _ast.Subscript) and isinstance(a.targets[0].slice, _ast.Slice)
-              and unparse(a.targets[0].value) == "blob" and "overlay.data" in unparse(a.value)]
+              and unparse(a.targets[0].value) == blob_v and f"{ov_v}.data" in unparse(a.value)]
     if len(copies) != 1:
         raise AnalysisError(f"{q}: expected one slice copy of overlay.data into the blob, found {len(copies)}")
     cp = copies[0]
@@ -544,15 +607,15 @@ def save_completeness(ctx: Ctx, py: PyProgram) -> None:
         if not (isinstance(src, _ast.Subscript) and isinstance(src.slice, _ast.Slice) and src.slice.lower is None):
             raise NotLinear("source is not overlay.data[:k]")
         k = alternatives(src.slice.upper, single)
-        want_hi = {(1, frozenset({("end", 1)})), (0, frozenset({("blob_len", 1)})), (0, frozenset({("start", 1), ("len(overlay.data)", 1)}))}
-        if lo != {(0, frozenset({("start", 1)}))}:
+        want_hi = {(1, frozenset({(end_v, 1)})), (0, frozenset({(len_v, 1)})), (0, frozenset({(start_v, 1), (f"len({ov_v}.data)", 1)}))}
+        if lo != {(0, frozenset({(start_v, 1)}))}:
             ctx.violation("C16.7/flat-image", key_of(rel, q, "overlay copy start"), f"the overlay payload is copied to blob[{unparse(cp.targets[0].slice.lower)}:..], not from the overlay's start", f"{rel}:{cp.lineno}")
         if hi != want_hi:
             ctx.violation("C16.7/flat-image", key_of(rel, q, "overlay copy does not reach the last byte of the window"),
                           f"the overlay payload is copied up to (exclusive) {sorted(show(f) for f in hi)}; covering the window needs {sorted(show(f) for f in want_hi)}: the last byte of every data-backed overlay (e.g. 0xFFFFF of the ROM) is saved from the wrong source",
                           f"{rel}:{cp.lineno}")
         klen = {(c - 0, t) for c, t in k}
-        hi_minus_start = {(c, frozenset(x for x in t if x != ("start", 1)) if ("start", 1) in t else t | {("start", -1)}) for c, t in hi}
+        hi_minus_start = {(c, frozenset(x for x in t if x != (start_v, 1)) if (start_v, 1) in t else t | {(start_v, -1)}) for c, t in hi}
         if klen != hi_minus_start:
             ctx.violation("C16.7/flat-image", key_of(rel, q, "slice lengths differ"), f"blob slice and payload slice have different lengths: {sorted(show(f) for f in hi_minus_start)} vs {sorted(show(f) for f in klen)}", f"{rel}:{cp.lineno}")
     except NotLinear as e:
@@ -614,15 +677,18 @@ def save_exact(ctx: Ctx, py: PyProgram) -> None:
     defs = py_defs(fn)
     n = 0
     for st in ast.walk(fn):
-        if isinstance(st, ast.Assign) and len(st.targets) == 1 and isinstance(st.targets[0], ast.Name) and st.targets[0].id in ("timer_info", "interrupts", "kb_metrics") and isinstance(st.value, ast.Dict):
-            for k, v in zip(st.value.keys, st.value.values):
+        pass
+    _meta, subs_ = _saver_dicts(ctx, fn)
+    for dname, dd in (("timer_info", subs_["timer"]), ("interrupts", subs_["interrupts"]), ("kb_metrics", subs_["kb_metrics"])):
+        if True:
+            for k, v in zip(dd.keys, dd.values):
                 if not isinstance(k, ast.Constant):
                     continue
                 n += 1
                 fields, ops = _state_fields(v, defs)
                 if len(fields) != 1 or ops:
-                    ctx.violation("C16.6/save-exact", key_of(EMU, "PCE500Emulator.save_snapshot", f"{st.targets[0].id}[{k.value!r}]"),
-                                  f"save_snapshot records {st.targets[0].id}[{k.value!r}] as `{unparse(v)[:120]}`: {'it combines ' + ', '.join(sorted(fields)) if len(fields) != 1 else 'it is altered by ' + ops[0]} instead of storing the field itself, so the restored machine differs from the saved one whenever the extra condition is false",
+                    ctx.violation("C16.6/save-exact", key_of(EMU, "PCE500Emulator.save_snapshot", f"{dname}[{k.value!r}]"),
+                                  f"save_snapshot records {dname}[{k.value!r}] as `{unparse(v)[:120]}`: {'it combines ' + ', '.join(sorted(fields)) if len(fields) != 1 else 'it is altered by ' + ops[0]} instead of storing the field itself, so the restored machine differs from the saved one whenever the extra condition is false",
                                   f"{EMU}:{v.lineno}")
     ctx.instance("C16.6/save-exact", "timer/interrupt/keyboard-metric entries written by save_snapshot are identity projections of one state field", n, 18)
 
